@@ -7,33 +7,54 @@ What is modelled: the fields `statusCode`, `contentLength`, `err`, `prettyPrint`
 call, the exact sequence of `Response.WriteHeader` / `Response.Write` calls the Go code performs.
 
 What is data (supplied by the harness, universally quantified in the theorems):
-* the underlying writer: `Env`, the result `(accepted, failed)` of its i-th `Write` call.  Nothing
-  is assumed about it (not even `accepted ≤ offered`);
+* the underlying writer: `Env`, the result `(accepted, err)` of its i-th `Write` call; `err` is the
+  error VALUE it returned (a tag: 0 = nil, anything else identifies the value).  Nothing is assumed
+  about it (not even `accepted ≤ offered`, nor that different calls return different errors);
 * marshalling (`encoding/json`, `encoding/xml`): a value is described by what the standard
   marshallers do with it (`Marshalled`): the size of the `MarshalIndent` output or its failure, the
-  sizes of the `Write` calls a `json.Encoder` / `xml.Encoder` issues when no write fails, and
-  whether the encoder reports a marshalling error of its own after those writes.
+  sizes of the `Write` calls a `json.Encoder` / `xml.Encoder` issues when no write fails,
+  whether the encoder reports a marshalling error of its own after those writes, and — for a value
+  that does — after which of those writes, when it is the one that fails, `xml.Encoder.Encode` still
+  runs into its own error and returns THAT instead of the writer's (`encXmlMasked`).
 -/
 namespace Restful
 namespace Resp
 
-/-- what the underlying writer returned for one `Write` call: `(n, err != nil)` -/
+/-- what the underlying writer returned for one `Write` call: `(n, err)`; `err = 0` is `nil`, any
+    other number is the identity of the error value -/
 structure WRes where
   accepted : Nat
-  failed : Bool
+  err : Nat
   deriving DecidableEq, Repr, Inhabited
+
+/-- `err != nil` -/
+def WRes.failed (r : WRes) : Bool := r.err != 0
 
 /-- the underlying writer during one run: the result of its i-th `Write` call (0-based) -/
 abbrev Env := Nat → WRes
 
 /-- an environment given by a list of results; `dflt` for every later call -/
-def Env.ofList (l : List WRes) (dflt : WRes := ⟨0, false⟩) : Env := fun i => l.getD i dflt
+def Env.ofList (l : List WRes) (dflt : WRes := ⟨0, 0⟩) : Env := fun i => l.getD i dflt
 
 /-- a call received by the underlying writer -/
 inductive UEvent where
   | header (status : Nat)
-  | write (offered accepted : Nat) (failed : Bool)
+  | write (offered accepted : Nat) (err : Nat)      -- `err`: the tag of the error returned, 0 = nil
   deriving DecidableEq, Repr
+
+/-- the `error` a call on the Response returns -/
+inductive Ret where
+  | nil
+  /-- the very value the underlying writer's `Write` returned (its tag, never 0) -/
+  | writer (tag : Nat)
+  /-- an error made elsewhere: a marshaller's own -/
+  | other
+  deriving DecidableEq, Repr
+
+/-- `err != nil` -/
+def Ret.isErr : Ret → Bool
+  | .nil => false
+  | _ => true
 
 /-- which accessor `Response.EntityWriter()` (response.go:84) finds for the current
     `requestAccept` / `routeProduces`; choosing it is C05's subject, here it is a setting -/
@@ -59,6 +80,11 @@ structure Marshalled where
   encJsonFails : Bool := false
   encXml : List Nat := []
   encXmlFails : Bool := false
+  /-- only meaningful with `encXmlFails`: entry i says that when the i-th of those writes fails,
+      `Encode` goes on to its own marshalling error and returns it instead of the writer's (the write
+      was a flush of the 4096-byte `bufio.Writer` triggered between two of the encoder's checks of the
+      sticky write error).  `[]` = never. -/
+  encXmlMasked : List Bool := []
   deriving DecidableEq, Repr
 
 /-- `len(xml.Header)` (encoding/xml: `<?xml version="1.0" encoding="UTF-8"?>` + newline) -/
@@ -129,24 +155,25 @@ def State.StatusCode (st : State) : Nat := if st.statusCode = 0 then 200 else st
 def State.ContentLength (st : State) : Nat := st.contentLength
 
 /-- One call of `Response.WriteHeader` (response.go:222) or `Response.Write` (response.go:238):
-    new state, what the underlying writer saw, whether an error came back. -/
-def stepPrim (env : Env) (st : State) : Prim → State × UEvent × Bool
-  | .hdr s => ({ st with statusCode := s }, .header s, false)
+    new state, what the underlying writer saw, the error that came back (response.go:241 hands the
+    writer's `err` on unchanged; 0 = nil). -/
+def stepPrim (env : Env) (st : State) : Prim → State × UEvent × Nat
+  | .hdr s => ({ st with statusCode := s }, .header s, 0)
   | .wr n =>
     let r := env st.writes
     ({ st with contentLength := st.contentLength + r.accepted, writes := st.writes + 1 },
-      .write n r.accepted r.failed, r.failed)
+      .write n r.accepted r.err, r.err)
 
 /-- A straight-line sequence of `WriteHeader`/`Write` calls that returns at the first `Write`
     error — the shape of every writing function of response.go and entity_accessors.go (and of the
     encoders: `json.Encoder` writes once, `xml.Encoder` writes through a `bufio.Writer` whose error
-    is sticky). -/
-def runPrims (env : Env) : State → List Prim → State × List UEvent × Bool
-  | st, [] => (st, [], false)
+    is sticky).  Returns the error of the failing `Write` (0 = none failed). -/
+def runPrims (env : Env) : State → List Prim → State × List UEvent × Nat
+  | st, [] => (st, [], 0)
   | st, p :: ps =>
     match stepPrim env st p with
-    | (st1, e, true) => (st1, [e], true)
-    | (st1, e, false) =>
+    | (st1, e, t + 1) => (st1, [e], t + 1)
+    | (st1, e, 0) =>
       match runPrims env st1 ps with
       | (st2, es, f) => (st2, e :: es, f)
 
@@ -155,37 +182,49 @@ def runPrims (env : Env) : State → List Prim → State × List UEvent × Bool
 structure Plan where
   prims : List Prim
   ownErr : Bool
+  /-- with `ownErr`: aligned with the `Write`s among `prims`; entry i = when that write fails the
+      call returns its own error, not the writer's (see `Marshalled.encXmlMasked`) -/
+  masked : List Bool := []
   deriving DecidableEq, Repr
+
+/-- the error a call returns, given how many `Write`s it made and the error of the last one
+    (0 = none failed).  entity_accessors.go:117-121, 163 and response.go:205 `return err`;
+    `json.Encoder.Encode` returns the `Write` error as it is, `xml.Encoder.Encode` the sticky error of
+    its `bufio.Writer` — unless it ran into an error of its own after the failing flush. -/
+def Plan.ret (p : Plan) (made werr : Nat) : Ret :=
+  if werr = 0 then (if p.ownErr then .other else .nil)
+  else if p.ownErr && p.masked.getD (made - 1) false then .other
+  else .writer werr
 
 /-- entity_accessors.go:148 `writeJSON`, :102 `writeXML` -/
 def entityPlan (pretty : Bool) (f : Fmt) (status : Nat) (v : Marshalled) : Plan :=
-  if v.isNil then ⟨[.hdr status], false⟩               -- :149/:103 `if v == nil { WriteHeader; return nil }`
+  if v.isNil then ⟨[.hdr status], false, []⟩               -- :149/:103 `if v == nil { WriteHeader; return nil }`
   else match f, pretty with
     | .json, true =>
       match v.prettyJson with
-      | none => ⟨[], true⟩                               -- :157 error before anything is written
-      | some n => ⟨[.hdr status, .wr n], false⟩          -- :161-163
+      | none => ⟨[], true, []⟩                               -- :157 error before anything is written
+      | some n => ⟨[.hdr status, .wr n], false, []⟩          -- :161-163
     | .xml, true =>
       match v.prettyXml with
-      | none => ⟨[], true⟩                               -- :111
-      | some n => ⟨[.hdr status, .wr xmlHeaderLen, .wr n], false⟩   -- :115-121
-    | .json, false => ⟨.hdr status :: v.encJson.map .wr, v.encJsonFails⟩   -- :167-168
-    | .xml, false => ⟨.hdr status :: v.encXml.map .wr, v.encXmlFails⟩      -- :125-126
+      | none => ⟨[], true, []⟩                               -- :111
+      | some n => ⟨[.hdr status, .wr xmlHeaderLen, .wr n], false, []⟩   -- :115-121
+    | .json, false => ⟨.hdr status :: v.encJson.map .wr, v.encJsonFails, []⟩   -- :167-168
+    | .xml, false => ⟨.hdr status :: v.encXml.map .wr, v.encXmlFails, v.encXmlMasked⟩      -- :125-126
 
 /-- response.go:141 `WriteHeaderAndEntity` -/
 def headerAndEntityPlan (s : Settings) (status : Nat) (v : Marshalled) : Plan :=
   match s.accept with
-  | .none => ⟨[.hdr 406], false⟩                         -- :143-146 no writer: 406, returns nil
+  | .none => ⟨[.hdr 406], false, []⟩                         -- :143-146 no writer: 406, returns nil
   | .json => entityPlan s.prettyPrint .json status v     -- entityJSONAccess.Write
   | .xml => entityPlan s.prettyPrint .xml status v       -- entityXMLAccess.Write
 
 def Call.plan (s : Settings) : Call → Plan
-  | .prettyPrint _ => ⟨[], false⟩
-  | .setAccept _ => ⟨[], false⟩
-  | .writeHeader st => ⟨[.hdr st], false⟩
-  | .write n => ⟨[.wr n], false⟩
-  | .writeErrorString st n => ⟨[.hdr st, .wr n], false⟩  -- response.go:204-205
-  | .writeError st _ n => ⟨[.hdr st, .wr n], false⟩      -- :185/:187 → WriteErrorString
+  | .prettyPrint _ => ⟨[], false, []⟩
+  | .setAccept _ => ⟨[], false, []⟩
+  | .writeHeader st => ⟨[.hdr st], false, []⟩
+  | .write n => ⟨[.wr n], false, []⟩
+  | .writeErrorString st n => ⟨[.hdr st, .wr n], false, []⟩  -- response.go:204-205
+  | .writeError st _ n => ⟨[.hdr st, .wr n], false, []⟩      -- :185/:187 → WriteErrorString
   | .writeServiceError st v => headerAndEntityPlan s st v
   | .writeHeaderAndEntity st v => headerAndEntityPlan s st v
   | .writeEntity v => headerAndEntityPlan s 200 v
@@ -209,11 +248,11 @@ def Call.errAfter (err : Bool) : Call → Bool
   | .writeServiceError _ _ => true                       -- :194 a ServiceError value is never nil
   | _ => err
 
-/-- one high-level call: new state, what the underlying writer saw, whether it returned an error -/
-def exec (env : Env) (st : State) (c : Call) : State × List UEvent × Bool :=
+/-- one high-level call: new state, what the underlying writer saw, the error it returned -/
+def exec (env : Env) (st : State) (c : Call) : State × List UEvent × Ret :=
   let p := c.plan st.set
   let r := runPrims env { st with err := c.errAfter st.err, set := c.next st.set } p.prims
-  (r.1, r.2.1, r.2.2 || p.ownErr)
+  (r.1, r.2.1, p.ret (r.1.writes - st.writes) r.2.2)
 
 /-- what is observable after one call -/
 structure CallResult where
@@ -222,19 +261,25 @@ structure CallResult where
   status : Nat
   /-- `ContentLength()` -/
   length : Nat
-  /-- the call returned a non-nil error -/
-  retErr : Bool
+  /-- the error the call returned -/
+  ret : Ret
   /-- `Error() != nil` -/
   errSet : Bool
   /-- number of underlying `Write` calls before this call -/
   firstWrite : Nat
+  /-- the value handed to the call does not marshal: the marshaller reports an error of its own
+      (a fact about the call, not about the writer) -/
+  ownErr : Bool
   deriving DecidableEq, Repr
+
+/-- the call returned a non-nil error -/
+def CallResult.retErr (r : CallResult) : Bool := r.ret.isErr
 
 def run (env : Env) : State → List Call → List CallResult
   | _, [] => []
   | st, c :: cs =>
     match exec env st c with
-    | (st1, evs, e) => ⟨evs, st1.StatusCode, st1.ContentLength, e, st1.err, st.writes⟩ :: run env st1 cs
+    | (st1, evs, e) => ⟨evs, st1.StatusCode, st1.ContentLength, e, st1.err, st.writes, (c.plan st.set).ownErr⟩ :: run env st1 cs
 
 def finalState (env : Env) : State → List Call → State
   | st, [] => st
